@@ -778,3 +778,104 @@ Proof.
   pose proof (forallb_map_to_list _ _ Hmem s h Hh) as Hx. cbn [fst snd] in Hx. rewrite Hc in Hx.
   apply andb_true_iff in Hx as [Hx _]. cbn in Hx. rewrite orb_false_r in Hx. by apply N.eqb_eq.
 Qed.
+
+(** * the invariant on computed runs (for the non-vacuity examples of props/C01.v) *)
+Definition fresh_okb (st : fstate) (ev : event) : bool :=
+  match ev with
+  | ESchedule (OBatch b) => bool_decide (NoDup (add_ids b)) && forallb (λ x, bool_decide (x ∉ f_seen st)) (add_ids b)
+  | _ => true
+  end.
+
+Lemma fresh_okb_sound st ev : fresh_okb st ev = true → fresh_ok st ev.
+Proof.
+  destruct ev as [| | |o| | | |]; try done. destruct o as [b| |]; try done. cbn [fresh_okb fresh_ok].
+  intros H. apply andb_true_iff in H as [H1 H2]. apply bool_decide_eq_true in H1. split; [done|].
+  intros x Hx. rewrite forallb_forall in H2. apply elem_of_list_In in Hx. specialize (H2 x Hx). by apply bool_decide_eq_true in H2.
+Qed.
+
+Fixpoint fresh_runb (P : params) (st : fstate) (evs : list event) : bool :=
+  match evs with
+  | [] => true
+  | ev :: evs' =>
+    fresh_okb st ev &&
+    match fstep P st ev with
+    | FOk st' => fresh_runb P st' evs'
+    | FDisabled => fresh_runb P st evs'
+    | FPanic => true
+    end
+  end.
+
+Lemma fresh_runb_sound P evs : ∀ st, fresh_runb P st evs = true → fresh_run P st evs.
+Proof.
+  induction evs as [|ev evs IH]; intros st H; cbn [fresh_run]; [done|].
+  cbn [fresh_runb] in H. apply andb_true_iff in H as [H1 H2]. split; [by apply fresh_okb_sound|].
+  destruct (fstep P st ev); [by apply IH|by apply IH|done].
+Qed.
+
+(* the events of a logged trace after the launch phase *)
+Definition ev_of (e : tev) : option event :=
+  match e with
+  | TTick _ => Some ETick
+  | TSnap h plog _ => Some (ESnap h plog)
+  | TDeliver h lost _ _ => Some (EDeliver h lost)
+  | TSched o _ => Some (ESchedule o)
+  | TExec h ccok _ => Some (EExec h ccok)
+  | TCrash h => Some (ECrash h)
+  | TRestart h => Some (ERestart h)
+  | TLearn h s r v => Some (ELearn h s r v)
+  | _ => None
+  end.
+
+Lemma steps_inv P evs st st' : LoopInv st → forallb not_schedule evs = true → steps P st evs = Some st' → LoopInv st'.
+Proof.
+  intros HI Hns E. destruct (run_inv P evs st HI (fresh_run_faults P evs st Hns)) as (st'' & E' & HI'). congruence.
+Qed.
+
+Lemma healthy_round_inv P plogs nticks o st st' :
+  LoopInv st → (∀ st4, pre_schedule P plogs nticks st = Some st4 → fresh_ok st4 (ESchedule o)) →
+  healthy_round P plogs nticks o st = Some st' → LoopInv st'.
+Proof.
+  unfold healthy_round, pre_schedule. intros HI Hf.
+  destruct (steps P st _) as [st1|] eqn:E1; [|done].
+  destruct (steps P st1 _) as [st2|] eqn:E2; [|done].
+  destruct (steps P st2 (catch_up_events st2)) as [st3|] eqn:E3; [|done].
+  destruct (steps P st3 (replicate nticks ETick)) as [st4|] eqn:E4; [|done].
+  destruct (fstep P st4 (ESchedule o)) as [st5| |] eqn:E5; try done. intros [= <-].
+  assert (HI1 : LoopInv st1).
+  { eapply steps_inv; [exact HI| |exact E1]. apply forallb_forall. intros ev Hev. apply elem_of_list_In in Hev.
+    apply elem_of_list_bind in Hev as (a & Hev & _). apply elem_of_cons in Hev as [->|Hev]; [done|]. by apply elem_of_list_singleton in Hev as ->. }
+  assert (HI2 : LoopInv st2).
+  { eapply steps_inv; [exact HI1| |exact E2]. apply forallb_forall. intros ev Hev. apply elem_of_list_In in Hev.
+    by apply elem_of_list_fmap in Hev as (a & -> & _). }
+  assert (HI3 : LoopInv st3).
+  { eapply steps_inv; [exact HI2| |exact E3]. apply forallb_forall. intros ev Hev. apply elem_of_list_In in Hev.
+    by apply catch_up_members in Hev as (a & s & r & v & -> & _). }
+  assert (HI4 : LoopInv st4).
+  { eapply steps_inv; [exact HI3| |exact E4]. apply forallb_forall. intros ev Hev. apply elem_of_list_In in Hev.
+    by apply elem_of_replicate in Hev as [-> _]. }
+  apply (step_inv P st4 (ESchedule o) st5 HI4); [|done]. by apply Hf.
+Qed.
+
+Fixpoint canon_freshb (P : params) (plogs : N → bool) (nticks : nat) (idf : nat → N → N) (n : nat) (st : fstate) : bool :=
+  match n with
+  | O => true
+  | S n' =>
+    match pre_schedule P plogs nticks st, canon_round P plogs nticks (idf n') st with
+    | Some st4, Some (o, st1) => fresh_okb st4 (ESchedule o) && canon_freshb P plogs nticks idf n' st1
+    | _, _ => true
+    end
+  end.
+
+Lemma canon_run_inv P plogs nticks idf n : ∀ st os st',
+  LoopInv st → canon_freshb P plogs nticks idf n st = true → canon_run P plogs nticks idf n st = Some (os, st') → LoopInv st'.
+Proof.
+  induction n as [|n IH]; intros st os st' HI Hf Hr; cbn [canon_run] in Hr; [by injection Hr as _ <-|].
+  cbn [canon_freshb] in Hf.
+  destruct (canon_round P plogs nticks (idf n) st) as [[o st1]|] eqn:Ec; [|done].
+  destruct (canon_run P plogs nticks idf n st1) as [[os1 st2]|] eqn:Er; [|done]. injection Hr as _ <-.
+  unfold canon_round in Ec. destruct (pre_schedule P plogs nticks st) as [st4|] eqn:Ep; [|done].
+  destruct (healthy_round P plogs nticks _ st) as [stx|] eqn:Eh; [|done]. injection Ec as Ho Hs. subst o stx.
+  apply andb_true_iff in Hf as [Hf1 Hf2].
+  apply (IH st1 os1 st2); [|done|done].
+  eapply healthy_round_inv; [exact HI| |exact Eh]. intros st4' Hst4. rewrite Ep in Hst4. injection Hst4 as <-. by apply fresh_okb_sound.
+Qed.
